@@ -12,9 +12,11 @@ import (
 	_ "verif/harness/mon/c06"
 	_ "verif/harness/mon/c08"
 	_ "verif/harness/mon/c09"
+	_ "verif/harness/mon/c10"
 	_ "verif/harness/mon/c11"
 	_ "verif/harness/mon/c15"
 	_ "verif/harness/mon/c16"
 	_ "verif/harness/mon/c17"
+	_ "verif/harness/mon/c18"
 	_ "verif/harness/mon/c19"
 )
